@@ -12,11 +12,12 @@ EXPLANATION = ("Closed obligations (eval, exhaustive): every entry of the five a
 
 
 def units(tier):
-    return [A.U_FF0, A.U_FFN]
+    return [A.U_FF0, A.U_FFN] + A.U_FXRAY_KEYS
 
 
 def runner_tasks(tier):
     return [{"module": "c20", "task": "eval_tables", "kind": "eval", "clause": "table entries, both tables"},
+            {"module": "c05", "task": "f0", "kind": "eval", "clause": "x-ray form factor served per atom/ion (symbol+charge resolution), all 211 entries"},
             {"module": "c20", "task": "formfactors", "kind": "bounded", "clause": "form factor values on a Q grid; Q=0 exhaustive"}]
 
 
